@@ -700,7 +700,7 @@ def extra_oracle(s, obs, flavour):
 
 def project(obs, flavour):
     """only what the property constrains: file names + the expat tree reduced to the constrained fields, in name order; files that state
-    zero tests are left out (the property demands nothing of them)"""
+    zero tests, and the file of the empty group name, are left out"""
     try:
         files, names = obs_files(obs)
     except Exception:
@@ -719,8 +719,10 @@ def project(obs, flavour):
                 tcs.append((k[1].get("name"), k[1].get("file"), k[1].get("line"), any(x[0] == "skipped" for x in kids),
                             [x[1].get("message") for x in kids if x[0] == "failure"]))
         so = ["".join(x for x in k[2] if isinstance(x, str)) for k in r[2] if not isinstance(k, str) and k[0] == "system-out"]
-        if r[1].get("tests") == "0" and not tcs:
-            continue    # a suite of no tests is nobody's report (what the code writes for a stretch none of whose tests is selected)
+        if (r[1].get("tests") == "0" and not tcs) or r[1].get("name") == "":
+            continue    # a suite of no tests is nobody's report (what the code writes for a stretch none of whose tests is selected), and the file of the
+                        # empty group name is where the code puts those suites: neither is compared (the oracle still judges an empty-named group
+                        # whenever its report is demanded -- it reads the observation, not this projection)
         out.append((fn, r[0], r[1].get("name"), r[1].get("tests"), r[1].get("failures"), tcs, so))
     return repr(out[:1] + sorted(out[1:], key=repr))
 
